@@ -37,7 +37,7 @@ ASSUMPTIONS = [
   'exceptions are injected at callback boundaries of module bodies, not between two bytecodes of flax itself',
   'all arithmetic is small integers in float32, so byte comparison is exact however XLA fuses',
 ]
-PROBES = ['fault_in_setup_or_body', 'write_outside_filter_raises', 'write_inside_filter_ok', 'repeat_checked', 'memo_hit_after_fault', 'frozen_returns', 'bind_unbind', 'core_api', 'observe_capture', 'observe_strip_sow', 'observe_no_perturb_col', 'collections_rule_checked', 'inner_module_attr', 'gc_event']
+PROBES = ['fault_in_setup_or_body', 'write_outside_filter_raises', 'write_inside_filter_ok', 'repeat_checked', 'memo_hit_after_fault', 'frozen_returns', 'bind_unbind', 'core_api', 'observe_capture', 'observe_strip_sow', 'observe_no_perturb_col', 'collections_rule_checked', 'inner_module_attr', 'gc_event', 'context_intercept', 'context_named_call_on', 'context_named_call_off', 'context_tabulate']
 
 errors = None
 
@@ -102,8 +102,11 @@ def generate(rs, tier):
       ops.append(dict(base, op='bind', mutable=gen_filter(g)))
     elif r < 0.75:
       ops.append(dict(base, op='core', mutable=gen_filter(g), fault=({'at': g.randrange(8)} if g.random() < 0.3 else None)))
-    elif r < 0.93:
+    elif r < 0.87:
       ops.append(dict(base, op='observe', how=g.choice(['capture', 'strip_sow', 'no_perturb_col']), mutable=gen_filter(g)))
+    elif r < 0.93:
+      # process-global / thread-local context that must be unwound on every exit path
+      ops.append(dict(base, op='context', how=g.choice(['intercept', 'intercept', 'named_call_on', 'named_call_off', 'tabulate']), fault=({'at': g.randrange(64)} if g.random() < 0.5 else None)))
     else:
       ops.append(dict(op='gc'))
   return dict(engine='linenworld', knobs=dict(frozen=g.random() < 0.4, progs=progs), ops=ops)
@@ -402,6 +405,55 @@ class LWorld:
       self.log.add(oi, 'bind', out[0])
     elif k == 'core':
       self.core_op(oi, op, x)
+    elif k == 'context':
+      j, v = self.pick_vars(pi, op['vars'])
+      if v is None:
+        return
+      how = op['how']
+      rngs = self.rngs(self.specs(pi), op['seed'], 'params' in P.streams_used(spec))
+      plain = lambda: m.apply(v, x, rngs=rngs, mutable=False)
+      base = self.guarded(oi, 'apply(base)', plain)
+      if base[0] != 'ok':
+        raise Violation('unexpected-exception', f'op {oi}: apply(mutable=False) raised {type(base[1]).__name__}: {base[1]}')
+      n_events = P.CTL.count
+      y0 = val(base[1])
+      calls = [0]
+
+      def interceptor(next_fun, args, kwargs, context):
+        calls[0] += 1
+        P.CTL.event('interceptor')
+        return next_fun(*args, **kwargs)
+
+      def inside():
+        if how == 'intercept':
+          with nn.intercept_methods(interceptor):
+            return m.apply(v, x, rngs=rngs, mutable=False)
+        if how in ('named_call_on', 'named_call_off'):
+          with nn.override_named_call(how == 'named_call_on'):
+            return m.apply(v, x, rngs=rngs, mutable=False)
+        m.tabulate(rngs if 'params' in rngs else dict(rngs, params=jax.random.key(0)), x, console_kwargs={'force_terminal': False, 'width': 200})
+        return m.apply(v, x, rngs=rngs, mutable=False)
+
+      at = None
+      if op.get('fault'):
+        at = op['fault']['at'] % max(1, n_events * (3 if how == 'tabulate' else 2))
+      o = self.guarded(oi, f'apply inside {how}', inside, fault_at=at)
+      if P.CTL.fired:
+        res.fault('raise@callback')
+        self.after_fault = True
+        if o[0] == 'ok':
+          raise Violation('exception-swallowed', f'op {oi}: exception injected inside {how} did not reach the caller')
+      elif o[0] != 'ok' or val(o[1]) != y0:
+        raise Violation('context-changed-output', f'op {oi}: apply inside {how} returned something else than plain apply ({o[0]})')
+      # afterwards nothing of the context may be left: the plain call behaves as before and is not intercepted
+      calls[0] = 0
+      again = self.guarded(oi, f'apply after {how}', plain)
+      if again[0] != 'ok' or val(again[1]) != y0:
+        raise Violation('context-leaked', f'op {oi}: after leaving {how}' + (' by an exception' if P.CTL.fired else '') + ' a plain apply no longer returns what it returned before')
+      if calls[0]:
+        raise Violation('context-leaked', f'op {oi}: the interceptor is still called {calls[0]} times after its context was left')
+      res.probe('context_' + how)
+      self.log.add(oi, 'context', how)
     elif k == 'observe':
       j, v = self.pick_vars(pi, op['vars'])
       if v is None:
